@@ -16,9 +16,9 @@ def run(chk):
         chk.function(C02.FILE, q, "P")
     only = getattr(chk, "only", None)
     if not only or "proof" in only:
-        C02.kernel_obligations(chk)
+        chk.guard(C02.kernel_obligations)
         from contracts import indexed
-        indexed.obligations(chk, chk.prop)
+        chk.guard(indexed.obligations, chk.prop)
         chk.discharge()
     chk.assume("@njit kernels verified as their undecorated Python bodies; float64 treated as the reals (re-association exact)")
     chk.assume("lemma (not machine-checked): with the kernel contracts, lnL is a sum over unique columns of multiplicity * log "
